@@ -444,6 +444,16 @@ impl rustc_driver::Callbacks for Cb {
             firstl = false;
             let _ = write!(out, "{}:{{\"freeze\":{},\"layout\":{}}}", esc(&tcx.def_path_str(did)), freeze, lay);
         }
+        out.push_str("},\"aliases\":{");
+        let mut firsta = true;
+        for id in tcx.hir_free_items() {
+            let did = id.owner_id.to_def_id();
+            if !matches!(tcx.def_kind(did), DefKind::TyAlias) { continue; }
+            let ty = tcx.type_of(did).skip_binder();
+            if !firsta { out.push(','); }
+            firsta = false;
+            let _ = write!(out, "{}:{}", esc(&tcx.def_path_str(did)), esc(&format!("{}", ty)));
+        }
         out.push_str("}}\n");
         std::fs::write(&out_path, out).unwrap();
         eprintln!("qfacts: wrote {}", out_path);
